@@ -286,7 +286,7 @@ func performSeek(ctx context.Context, ps Store, memRes []KeyValueExists, rng See
 						haveMem = false
 					}
 				} else {
-					if !bytes.Equal(kvMem.Key, kvPs.Key) {
+					if !haveMem || !bytes.Equal(kvMem.Key, kvPs.Key) {
 						if cutPrefix {
 							kvPs.Key = kvPs.Key[lPrefix:]
 						}
